@@ -3,6 +3,13 @@
      D <dataset>         -> "D"           sets the dataset
      Q <store> <text> <term>  -> "R ok <ids by model eval> <ids by iterate model> <ids by spec>" | "R err" | "R panic"
      F <float64 bits>    -> "F <hex of the number -> string coercion>"   (fmt_float_go vs strconv.FormatFloat(v,'f',-1,64))
+     T <store> <F|R|A> <api> <universe ids|*> <sort hex|-> <status> <ids> <count|-> <text> <term>
+                         -> "T agree" | "T viol <why> <matching ids> <page length>"
+                            the answer a scan strategy gave (observed by the harness, part of the case line), judged by
+                            strategy_check (Ast/ChildStore.v) against the matching set of the unpaged filter
+   An S line may end with  H <n> (<child store> <parent store> <0|1 extended> <npath> <path..>)*  : the listed stores
+   are child stores; their declaration on the S line holds their OWN symbols, what they expose is child_decl
+   (GrantSymbols), what they contain is child_db (both Ast/ChildStore.v).
    The number -> string coercion of floats is the modelled formatter fmt_float_go (Ast/FmtFloat.v).
    Trusted for the correspondence check only. *)
 
@@ -45,6 +52,26 @@ let parse_schema () : schema =
       let key = next_bytes () in
       (n, { m_ty = ty; m_prefix = pfx; m_key = key })) in
     { st_syms = syms; st_maps = maps })
+
+let parse_hier () : childdecl list =
+  match !toks with
+  | "H" :: r ->
+      toks := r;
+      let n = next_int () in
+      times n (fun () ->
+        let c = nat_of_int (next_int ()) in let p = nat_of_int (next_int ()) in
+        let ext = next () = "1" in
+        let np = next_int () in let path = times np next_bytes in
+        { ch_store = c; ch_parent = p; ch_path = path; ch_ext = ext })
+  | _ -> []
+
+(* the schema the stores expose: child stores get their parent's symbols (child_decl) *)
+let apply_hier (sch : schema) (h : childdecl list) : schema =
+  let arr = Array.of_list sch in
+  List.iter (fun c ->
+    let ci = int_of_nat c.ch_store and pi = int_of_nat c.ch_parent in
+    arr.(ci) <- child_decl c.ch_path arr.(pi) arr.(ci)) h;
+  Array.to_list arr
 
 let parse_sval () : sval =
   let t = next () in
@@ -142,13 +169,66 @@ let ids_str (l : n list list) : string =
 let () =
   let schema : schema ref = ref [] in
   let data : (n list * entity) list array ref = ref [||] in
-  let db (s : nat) = let i = int_of_nat s in if i < Array.length !data then !data.(i) else [] in
+  let hier : childdecl list ref = ref [] in
+  let base_db (s : nat) = let i = int_of_nat s in if i < Array.length !data then !data.(i) else [] in
+  let view : (int, (n list * entity) list) Hashtbl.t = Hashtbl.create 7 in
+  let db (s : nat) =
+    if !hier = [] then base_db s else
+    let i = int_of_nat s in
+    match Hashtbl.find_opt view i with
+    | Some l -> l
+    | None -> let l = child_db !hier base_db s in Hashtbl.add view i l; l in
+  let parse_ids () = match next () with
+    | "-" -> []
+    | t -> List.map bytes_of_hex (String.split_on_char ',' t) in
   iter_lines (fun line ->
     toks := split_ws line;
     match !toks with
     | [] -> ()
-    | "S" :: r -> toks := r; schema := parse_schema (); print_endline "S"
-    | "D" :: r -> toks := r; data := Array.of_list (parse_dataset ()); print_endline "D"
+    | "S" :: r ->
+        toks := r;
+        let raw = parse_schema () in
+        hier := parse_hier ();
+        schema := apply_hier raw !hier;
+        Hashtbl.reset view;
+        print_endline "S"
+    | "D" :: r -> toks := r; data := Array.of_list (parse_dataset ()); Hashtbl.reset view; print_endline "D"
+    | "T" :: r ->
+        toks := r;
+        let store = nat_of_int (next_int ()) in
+        let kind = (match next () with "F" -> OFwd | "R" -> ORev | _ -> OAny) in
+        let _api = next () in
+        let univ = (match !toks with "*" :: r' -> toks := r'; None | _ -> Some (parse_ids ())) in
+        let _sort = next () in
+        let status = next () in
+        let ids = parse_ids () in
+        let count = (match next () with "-" -> None | c -> Some (z_of_dec c)) in
+        let _text = next () in
+        let u = parse_untyped () in
+        let m () = matching fmt_float_go_memo fmt_time_none !schema db store univ u in
+        let plen l = List.length (page (match u with UQuery (_, s, _) -> s | _ -> None)
+                                       (match u with UQuery (_, _, l) -> l | _ -> None) l) in
+        (match typer !schema store u, status with
+         | Panic, _ -> print_endline "T viol model-panic - 0"
+         | Err, "err" -> print_endline "T agree"
+         | Err, "ok" ->
+             (* a filter the typing rules reject was accepted: judge the answer by the documented semantics *)
+             if strategy_check fmt_float_go_memo fmt_time_none !schema db store kind univ u ids count
+             then print_endline "T viol accepted - 0"
+             else Printf.printf "T viol accepted-ids %s %d\n" (ids_str (m ())) (plen (m ()))
+         | Err, _ -> Printf.printf "T viol panic %s 0\n" (ids_str (m ()))
+         | Ok _, "ok" ->
+             if strategy_check fmt_float_go_memo fmt_time_none !schema db store kind univ u ids count
+             then print_endline "T agree"
+             else begin
+               let mm = m () in
+               (* which part of the answer is wrong: the ids (judged without the count), otherwise the count *)
+               let ids_ok = strategy_check fmt_float_go_memo fmt_time_none !schema db store kind univ u ids None in
+               let why = if ids_ok then "count" else "ids" in
+               Printf.printf "T viol %s %s %d\n" why (ids_str mm) (plen mm)
+             end
+         | Ok _, "err" -> Printf.printf "T viol rejected %s 0\n" (ids_str (m ()))
+         | Ok _, _ -> Printf.printf "T viol panic %s 0\n" (ids_str (m ())))
     | "Q" :: r ->
         toks := r;
         let store = nat_of_int (next_int ()) in
